@@ -83,6 +83,7 @@ func newC14Env(mode string) *rEnv {
 		e.KC.Hash = map[string][]byte{}
 	}
 	e.KCMode = mode
+	e.Name = "odd"
 	return e
 }
 
